@@ -124,6 +124,9 @@ class Lib:
         return RowVal(out, 'ndarray')
 
     def binop(self, ctx, op, a, b, inplace=False):
+        mm = self.I.models.get('matval.binop')
+        if mm is not None and (self._is_mat(a) or self._is_mat(b)):
+            return mm(ctx, op, a, b)
         # numpy rows (fixed width) broadcast element-wise
         if isinstance(a, RowVal) or isinstance(b, RowVal):
             if (is_seqlike(a) or is_num(a)) and (is_seqlike(b) or is_num(b)):
@@ -162,6 +165,10 @@ class Lib:
     @staticmethod
     def _boolish(v):
         return isinstance(v, bool) or (isinstance(v, Sym) and v.kind == 'bool')
+
+    @staticmethod
+    def _is_mat(v):
+        return isinstance(v, list) and not isinstance(v, RowVal) and len(v) > 0 and all(isinstance(r, RowVal) for r in v)
 
     def is_setlike(self, v):
         return isinstance(v, (set, frozenset, SmallSet, CondSet, SymSet))
